@@ -14,6 +14,7 @@ import (
 	"regexp"
 	"runtime"
 	"runtime/debug"
+	"runtime/pprof"
 	"sort"
 	"strconv"
 	"strings"
@@ -150,6 +151,7 @@ type checker struct {
 	results     []vcResult
 	violations  []string
 	knownHits   map[string]bool
+	replayed    map[string]bool
 	inconcl     []string
 	mismatch    []string
 	vacuous     []string
@@ -163,6 +165,7 @@ type checker struct {
 	slowCap     time.Duration
 	bounds      []string
 	execCap     time.Duration
+	onlyArgs    string
 }
 
 func main() {
@@ -200,17 +203,20 @@ func cmdCheck(args []string) int {
 	trace := fs.Bool("trace", false, "trace")
 	noEvidence := fs.Bool("no-evidence", false, "do not write the evidence file")
 	dump := fs.String("dump", "", "directory to dump failing/unknown VC scripts")
+	cpuprof := fs.String("cpuprofile", "", "write cpu profile")
+	args1 := fs.String("args", "", "run only this argument tuple, e.g. 1,0")
 	fs.Parse(args)
 	if t := os.Getenv("VERIF_TIER"); t != "" && *tier == "" {
 		*tier = t
 	}
-	c := &checker{repo: *repo, verif: *verif, prop: *prop, tier: *tier, knownHits: map[string]bool{}, t0: time.Now()}
+	c := &checker{repo: *repo, verif: *verif, prop: *prop, tier: *tier, knownHits: map[string]bool{}, replayed: map[string]bool{}, t0: time.Now()}
 	c.seed, _ = strconv.ParseInt(os.Getenv("VERIF_SEED"), 10, 64)
 	c.fastCap, c.slowCap, c.execCap = 8*time.Second, 90*time.Second, 5*time.Minute
 	if *tier == "thorough" {
 		c.fastCap, c.slowCap, c.execCap = 20*time.Second, 600*time.Second, 30*time.Minute
 	}
 	debug.SetMemoryLimit(12 << 30)
+	debug.SetGCPercent(400)
 	go func() {
 		// memory watchdog: never take the machine down
 		for {
@@ -223,6 +229,12 @@ func cmdCheck(args []string) int {
 			}
 		}
 	}()
+	if *cpuprof != "" {
+		f, _ := os.Create(*cpuprof)
+		pprof.StartCPUProfile(f)
+		defer pprof.StopCPUProfile()
+	}
+	c.onlyArgs = *args1
 	code := c.run(*only, *trace, *dump)
 	if !*noEvidence {
 		c.writeEvidence(code)
@@ -284,7 +296,18 @@ func (c *checker) run(only string, trace bool, dump string) (code int) {
 		if only != "" && !strings.Contains(h.Func, only) {
 			continue
 		}
-		runs = append(runs, expand(h)...)
+		for _, r := range expand(h) {
+			if c.onlyArgs != "" {
+				parts := make([]string, len(r.Args))
+				for i, a := range r.Args {
+					parts[i] = strconv.Itoa(a)
+				}
+				if strings.Join(parts, ",") != c.onlyArgs {
+					continue
+				}
+			}
+			runs = append(runs, r)
+		}
 	}
 	if len(runs) == 0 {
 		fmt.Printf("INCONCLUSIVE property=%s no harness registered\n", c.prop)
@@ -515,14 +538,18 @@ func (c *checker) oneRun(r runSpec, pool *solver.Pool, dump string) int {
 					}
 				} else {
 					res.Verdict = "sat(violation)"
-					c.handleViolation(r, p.vc, model, dump, p.job)
+					key := r.String() + "/" + p.vc.Label
+					if !c.replayed[key] {
+						// one native replay per run and label; further states violating the same label add nothing
+						c.replayed[key] = c.handleViolation(r, p.vc, model, dump, p.job)
+					}
 				}
 			}
 		}
 		c.results = append(c.results, res)
 	}
 	c.runsDone = append(c.runsDone, r.String())
-	fmt.Printf("  run %-40s states=%d vcs=%d unsat=%d sat=%d unknown=%d feasq=%d exec=%.1fs total=%.1fs\n", r, rawStates, len(ex.VCs), nUnsat, nSat, nUnk, ex.FeasQ, execSecs, time.Since(t0).Seconds())
+	fmt.Printf("  run %-40s states=%d vcs=%d unsat=%d sat=%d unknown=%d feasq=%d(%.1fs,%d unk) forks=%d merges=%d nodes=%d exec=%.1fs total=%.1fs\n", r, rawStates, len(ex.VCs), nUnsat, nSat, nUnk, ex.FeasQ, ex.FeasSecs, ex.FeasUnknown, ex.Forks, ex.Merges, term.NumNodes(), execSecs, time.Since(t0).Seconds())
 	ex.EndStates = 0
 	return 0
 }
@@ -574,7 +601,7 @@ type replayFile struct {
 	Readable map[string]string `json:"readable"`
 }
 
-func (c *checker) handleViolation(r runSpec, vc *ssaexec.VC, model term.Model, dump string, job *solver.Job) {
+func (c *checker) handleViolation(r runSpec, vc *ssaexec.VC, model term.Model, dump string, job *solver.Job) bool {
 	vec := map[string]uint64{}
 	for k, v := range model {
 		if !strings.HasPrefix(k, "$") {
@@ -592,6 +619,7 @@ func (c *checker) handleViolation(r runSpec, vc *ssaexec.VC, model term.Model, d
 	if ok {
 		c.violations = append(c.violations, fmt.Sprintf("VIOLATION property=%s replay=%s", c.prop, path))
 		fmt.Printf("  counterexample for %s/%s reproduced natively: %v\n", r, vc.Label, rf.Readable)
+		return true
 	} else {
 		c.mismatch = append(c.mismatch, fmt.Sprintf("%s: model for %q did not reproduce natively (%v): %s", r, vc.Label, rf.Readable, lastLines(out, 6)))
 		if dump != "" {
@@ -599,6 +627,7 @@ func (c *checker) handleViolation(r runSpec, vc *ssaexec.VC, model term.Model, d
 			solver.DumpScript(filepath.Join(dump, sanitize(r.String()+"_"+vc.Label)+".smt2"), job.Asserts, job.Want)
 		}
 	}
+	return false
 }
 
 func lastLines(s string, n int) string {
